@@ -397,6 +397,7 @@ type userPlan struct {
 	upBytes    int64
 	class      byte
 	chunk      int
+	early      bool   // tcpmux: the first bytes of the stream leave in the same write as the CONNECT request
 	split      bool   // write the second half of the stream only after everything was received
 	mode       string // "A" user writes and closes | "B" backend writes and closes | "C" backend leaves early | "D" both write, user closes after reading all
 	closeAfter string
@@ -422,6 +423,7 @@ func (r *tunnelRun) plans(cfgNo int, cfg tnCfg, conns int) []*userPlan {
 		if p.upBytes > 64*1024 && p.chunk < 1024 {
 			p.chunk = 4096
 		}
+		p.early = r.rnd.Intn(2) == 0
 		p.back = tnPlan{downBytes: sizes[r.rnd.Intn(len(sizes))], class: classes[r.rnd.Intn(3)], chunk: []int{3, 1024, 32 * 1024}[r.rnd.Intn(3)]}
 		if p.back.downBytes > 64*1024 && p.back.chunk < 1024 {
 			p.back.chunk = 8192
@@ -743,6 +745,24 @@ func (r *tunnelRun) runUser(cfgNo int, cfg tnCfg, addr string, p *userPlan, b *t
 	}
 	userLocal := raw.LocalAddr().String()
 	var c net.Conn = raw
+	// the user's stream, produced chunk by chunk
+	uh, ug, ufirst := genHeader('U', p.class, u, uint32(proxy)), newBodyGen(p.class, u, uint32(proxy)), true
+	nextChunk := func(n int64) []byte {
+		if ufirst {
+			ufirst = false
+			q := append([]byte{}, uh...)
+			if n > hdrLen {
+				rest := make([]byte, n-hdrLen)
+				ug.fill(rest)
+				q = append(q, rest...)
+			}
+			return q
+		}
+		q := make([]byte, n)
+		ug.fill(q)
+		return q
+	}
+	var early []byte
 	switch cfg.Kind {
 	case "https":
 		tc := tls.Client(raw, &tls.Config{ServerName: fmt.Sprintf("h%d.test", proxy), InsecureSkipVerify: true})
@@ -755,7 +775,10 @@ func (r *tunnelRun) runUser(cfgNo int, cfg tnCfg, addr string, p *userPlan, b *t
 		_ = raw.SetDeadline(time.Time{})
 		c = tc
 	case "tcpmux":
-		fmt.Fprintf(raw, "CONNECT h%d.test:443 HTTP/1.1\r\nHost: h%d.test:443\r\n\r\n", proxy, proxy)
+		if p.early && upBytes > 0 { // a client that does not wait for the answer before it starts its stream
+			early = nextChunk(min(int64(p.chunk), upBytes))
+		}
+		_, _ = raw.Write(append([]byte(fmt.Sprintf("CONNECT h%d.test:443 HTTP/1.1\r\nHost: h%d.test:443\r\n\r\n", proxy, proxy)), early...))
 		br := bufio.NewReader(raw)
 		_ = raw.SetReadDeadline(time.Now().Add(8 * time.Second))
 		status, err := br.ReadString('\n')
@@ -776,7 +799,7 @@ func (r *tunnelRun) runUser(cfgNo int, cfg tnCfg, addr string, p *userPlan, b *t
 	}
 	down := newStreamCheck()
 	t0 := time.Now()
-	var wrote int64
+	wrote := int64(len(early))
 	var writeErr bool
 	var wwg sync.WaitGroup
 	wwg.Add(1)
@@ -786,32 +809,13 @@ func (r *tunnelRun) runUser(cfgNo int, cfg tnCfg, addr string, p *userPlan, b *t
 		if upBytes == 0 {
 			return
 		}
-		h := genHeader('U', p.class, u, uint32(proxy))
-		g := newBodyGen(p.class, u, uint32(proxy))
-		buf := make([]byte, p.chunk)
-		first, waited := true, false
+		waited := false
 		for wrote < upBytes {
 			if p.split && wrote >= upBytes/2 && !waited {
 				<-downDone
 				waited = true
 			}
-			n := int64(len(buf))
-			if upBytes-wrote < n {
-				n = upBytes - wrote
-			}
-			var q []byte
-			if first {
-				q = append([]byte{}, h...)
-				if n > hdrLen {
-					rest := make([]byte, n-hdrLen)
-					g.fill(rest)
-					q = append(q, rest...)
-				}
-				first = false
-			} else {
-				q = buf[:n]
-				g.fill(q)
-			}
+			q := nextChunk(min(int64(p.chunk), upBytes-wrote))
 			_ = c.SetWriteDeadline(time.Now().Add(20 * time.Second))
 			if _, err := c.Write(q); err != nil {
 				writeErr = true
@@ -903,7 +907,7 @@ func (r *tunnelRun) runUser(cfgNo int, cfg tnCfg, addr string, p *userPlan, b *t
 		}
 		b.mu.Unlock()
 	}
-	ev := []any{"n", cfgNo, "cfg", cfg, "u", u, "proxy", proxy, "mode", p.mode, "dial_ok", true, "what", "",
+	ev := []any{"n", cfgNo, "cfg", cfg, "u", u, "proxy", proxy, "mode", p.mode, "early", len(early) > 0, "dial_ok", true, "what", "",
 		"up_written", wrote, "up_planned", upBytes, "down_planned", back.downBytes,
 		"down_got", down.got, "down_ok", down.ok, "down_kind", string(rune(down.kind)), "down_backend", down.id,
 		"down_eof", downEOF, "down_closed_ms", downClosedMs, "user_write_err", writeErr,
